@@ -41,8 +41,20 @@ const (
 	memLimit      = 4 << 30
 	allocSlack    = 16 << 20
 	allocPerByte  = 1024
-	watchdogLimit = 30 * time.Second
+	watchdogCPU   = 30 * time.Second
+	watchdogWall  = 15 * time.Minute
 )
+
+// probeMarker is published instead of a case index while the length fields of a seed are probed.
+const probeMarker = 0x7ffffffe
+
+const maxDeathsPerUnit = 200
+
+func cpuTime() time.Duration {
+	var ru syscall.Rusage
+	syscall.Getrusage(syscall.RUSAGE_SELF, &ru)
+	return time.Duration(ru.Utime.Nano() + ru.Stime.Nano())
+}
 
 // ---- decode targets ---------------------------------------------------------------------------
 
@@ -66,9 +78,10 @@ func (d *dtarget) decode(b []byte) (v reflect.Value, n int, err error) {
 }
 
 type seed struct {
-	Desc  string
-	Bytes []byte // nil: the value has no encoding (Encode failed; that is C01's subject)
-	Sites []site
+	Desc   string
+	Bytes  []byte // nil: the value has no encoding (Encode failed; that is C01's subject)
+	Sites  []site // pre-allocating length fields, found by probing the decoder (executor only)
+	probed bool
 }
 
 // ---- units ------------------------------------------------------------------------------------
@@ -181,9 +194,7 @@ func (p *plan) buildSeed(ti, si int) *seed {
 		if b == nil {
 			return &seed{Desc: desc}
 		}
-		var sites []site
-		findSites(v, len(prefix), "", &sites, 0)
-		return &seed{Desc: desc, Bytes: append(append([]byte{}, prefix...), b...), Sites: sites}
+		return &seed{Desc: desc, Bytes: append(append([]byte{}, prefix...), b...)}
 	}
 	if t.svc {
 		svcs := p.kindTargets("service")
@@ -376,18 +387,21 @@ type caseReplay struct {
 }
 
 type violationMsg struct {
+	V      bool       `json:"v"` // marks the line as a violation message
+	Unit   int        `json:"unit"`
+	M      int        `json:"m"`
 	Sig    string     `json:"sig"`
 	Detail string     `json:"detail"`
 	Replay caseReplay `json:"replay"`
 }
 
+// unitResult is reported when a unit completes. Cases that violated are reported immediately
+// (violationMsg lines) and are not part of Evals; neither are cases that killed an executor.
 type unitResult struct {
 	Unit      int              `json:"unit"`
 	Evals     int64            `json:"evals"`
 	NonTriv   []uint64         `json:"nontriv"`
 	Outcomes  map[string]int64 `json:"outcomes"`
-	Viol      []violationMsg   `json:"viol"`
-	ViolCount map[string]int   `json:"viol_count"`
 	NotJudged int64            `json:"not_judged"`
 	Skipped   int64            `json:"skipped"`
 	Samples   []string         `json:"samples,omitempty"`
@@ -405,6 +419,13 @@ type executor struct {
 	caseSeq   atomic.Int64
 	scratch   []byte
 	topCache  map[string]string
+	curUnit   int
+	curM      int
+	violated  bool // the running case has produced a violation
+	out       *bufio.Writer
+	sigSeen   map[string]int
+	towerKind string
+	towerDepth int
 }
 
 func (e *executor) readAlloc() uint64 {
@@ -414,6 +435,7 @@ func (e *executor) readAlloc() uint64 {
 
 // publish: unit, case index, memo key.
 func (e *executor) publish(unit, m int, key string) {
+	e.curUnit, e.curM = unit, m
 	if e.pub == nil {
 		return
 	}
@@ -427,16 +449,24 @@ func (e *executor) publish(unit, m int, key string) {
 }
 
 func (e *executor) violate(sig, detail string, rp caseReplay) {
-	r := e.res
-	if r.ViolCount == nil {
-		r.ViolCount = map[string]int{}
+	e.violated = true
+	if e.sigSeen == nil {
+		e.sigSeen = map[string]int{}
 	}
-	r.ViolCount[sig]++
-	if r.ViolCount[sig] == 1 {
-		if len(detail) > 1500 {
-			detail = detail[:1500] + "…"
-		}
-		r.Viol = append(r.Viol, violationMsg{sig, detail, rp})
+	e.sigSeen[sig]++
+	if e.sigSeen[sig] > 3 {
+		detail, rp = "", caseReplay{} // the supervisor keeps the first one only
+	}
+	if len(detail) > 1500 {
+		detail = detail[:1500] + "…"
+	}
+	if e.out != nil {
+		b, _ := json.Marshal(violationMsg{V: true, Unit: e.curUnit, M: e.curM, Sig: sig, Detail: detail, Replay: rp})
+		e.out.Write(b)
+		e.out.WriteByte('\n')
+		e.out.Flush()
+	} else {
+		fmt.Printf("  sig=%q\n  detail=%s\n", sig, detail)
 	}
 }
 
@@ -513,7 +543,12 @@ func (e *executor) runCase(t *dtarget, in []byte, desc func() string) (allocFail
 
 func (e *executor) runCaseKey(t *dtarget, in []byte, key string, desc func() string) (allocFail bool) {
 	r := e.res
-	r.Evals++
+	e.violated = false
+	defer func() {
+		if !e.violated {
+			r.Evals++
+		}
+	}()
 	var v reflect.Value
 	var n int
 	var err error
@@ -524,7 +559,10 @@ func (e *executor) runCaseKey(t *dtarget, in []byte, key string, desc func() str
 	a1 := e.readAlloc()
 	e.caseStart.Store(0)
 	rp := func() caseReplay {
-		return caseReplay{Target: t.Name, Kind: t.Kind, Hex: hex.EncodeToString(in), Desc: desc()}
+		if e.towerKind != "" {
+			return caseReplay{Target: t.Name, Kind: t.Kind, Tower: e.towerKind, Depth: e.towerDepth, Desc: desc()}
+		}
+		return caseReplay{Target: t.Name, Kind: t.Kind, Hex: hex.EncodeToString(clipReplay(in)), Desc: desc()}
 	}
 	alloc := a1 - a0
 	if alloc > 8<<20 {
@@ -644,6 +682,51 @@ func reencodeOracle(t *dtarget, v reflect.Value, n int, in []byte) (string, stri
 	return "", ""
 }
 
+// probeSites finds the 4-byte length fields of a seed at which the decoder allocates in
+// proportion to the announced length before it has seen the elements: the window is set to 0x400
+// and to 0x800 and the allocation is measured; a difference of at least one byte per announced
+// element marks a site. The class of a site is the (power-of-two bucket of the) number of bytes
+// allocated per announced element. Sites only serve to recognise repeated instances of an
+// allocation failure that has already been recorded; they never decide a verdict.
+func (e *executor) probeSites(t *dtarget, s *seed) {
+	if s.probed {
+		return
+	}
+	s.probed = true
+	n := len(s.Bytes)
+	if n < 4 {
+		return
+	}
+	buf := append([]byte{}, s.Bytes...)
+	measure := func(p int, v uint32) uint64 {
+		copy(buf, s.Bytes)
+		binary.LittleEndian.PutUint32(buf[p:], v)
+		a0 := e.readAlloc()
+		guard(func() { t.decode(buf) })
+		return e.readAlloc() - a0
+	}
+	measure(0, binary.LittleEndian.Uint32(s.Bytes)) // warm-up (type caches)
+	lastSite := -10
+	for p := 0; p+4 <= n; p++ {
+		if p == lastSite+2 {
+			continue // would write into the upper half of the length field just found
+		}
+		a1 := measure(p, 0x400)
+		a2 := measure(p, 0x800)
+		if a2 < a1+0x400 {
+			continue
+		}
+		per := (a2 - a1 + 0x200) / 0x400
+		bucket := 0
+		for per > 1 {
+			per >>= 1
+			bucket++
+		}
+		s.Sites = append(s.Sites, site{Off: p, Class: "prealloc-2^" + strconv.Itoa(bucket) + "B/elem"})
+		lastSite = p
+	}
+}
+
 // ---- unit runners -----------------------------------------------------------------------------
 
 func (e *executor) memoHit(key string) bool { return key != "" && e.memo[key] }
@@ -665,6 +748,10 @@ func (e *executor) runUnit(ui int, skip map[int]bool) {
 	switch u.Kind {
 	case "mut":
 		s := e.plan.seedAt(u.Target, u.Seed)
+		if !skip[probeMarker] {
+			e.publish(ui, probeMarker, "")
+			e.probeSites(t, s)
+		}
 		kinds := map[byte]bool{}
 		m := -1
 		singles(s.Bytes, func(mu mutation) {
@@ -711,6 +798,10 @@ func (e *executor) runUnit(ui int, skip map[int]bool) {
 }
 
 func (e *executor) runPairs(ui int, t *dtarget, s seed, skip map[int]bool) {
+	if !skip[probeMarker] {
+		e.publish(ui, probeMarker, "")
+		e.probeSites(t, &s)
+	}
 	var ms []mutation
 	singles(s.Bytes, func(mu mutation) {
 		if mu.Kind != 't' {
@@ -850,11 +941,9 @@ func (e *executor) runTower(ui int, t *dtarget, kind int, skip map[int]bool) {
 		}
 		in := tower(kind, d)
 		e.publish(ui, m, "")
-		before := len(e.res.Viol)
+		e.towerKind, e.towerDepth = strconv.Itoa(kind), d
 		e.runCase(t, in, func() string { return fmt.Sprintf("tower %s depth %d", towerKinds[kind], d) })
-		for i := before; i < len(e.res.Viol); i++ {
-			e.res.Viol[i].Replay = caseReplay{Target: t.Name, Kind: t.Kind, Tower: strconv.Itoa(kind), Depth: d, Desc: e.res.Viol[i].Replay.Desc}
-		}
+		e.towerKind, e.towerDepth = "", 0
 		e.res.NonTriv = append(e.res.NonTriv, evid.H(fmt.Sprintf("tower/%d/%d", kind, d)))
 	}
 	e.res.Samples = append(e.res.Samples, fmt.Sprintf("tower %s depths 1..%d", towerKinds[kind], towerDepths(e.plan.tier == "thorough")[len(towerDepths(e.plan.tier == "thorough"))-1]))
@@ -1035,17 +1124,35 @@ func executorMain(prop string) {
 		}
 		e.memoFile, _ = os.OpenFile(mf, os.O_WRONLY|os.O_APPEND|os.O_CREATE, 0o644)
 	}
-	// watchdog: a case that runs for more than watchdogLimit (normal cost: microseconds)
+	// watchdog: a case that has consumed more than watchdogCPU of processor time (normal cost:
+	// microseconds), or has not returned after watchdogWall. CPU time, so that an overloaded
+	// machine cannot turn a slow case into a "hang".
 	go func() {
+		var lastSeq int64 = -1
+		var cpu0 time.Duration
 		for {
 			time.Sleep(500 * time.Millisecond)
-			if s := e.caseStart.Load(); s != 0 && time.Since(time.Unix(0, s)) > watchdogLimit {
-				fmt.Fprintf(os.Stderr, "\nVERIF-WATCHDOG: case still running after %v\n", watchdogLimit)
+			seq := e.caseSeq.Load()
+			if seq != lastSeq {
+				lastSeq, cpu0 = seq, cpuTime()
+				continue
+			}
+			st := e.caseStart.Load()
+			if st == 0 {
+				continue
+			}
+			if c := cpuTime() - cpu0; c > watchdogCPU {
+				fmt.Fprintf(os.Stderr, "\nVERIF-WATCHDOG: case has used %v of CPU time\n", c)
+				os.Exit(97)
+			}
+			if time.Since(time.Unix(0, st)) > watchdogWall {
+				fmt.Fprintf(os.Stderr, "\nVERIF-WATCHDOG: case still running after %v\n", watchdogWall)
 				os.Exit(97)
 			}
 		}
 	}()
 	out := bufio.NewWriter(os.Stdout)
+	e.out = out
 	enc := json.NewEncoder(out)
 	for k := start; k < len(p.units); k++ {
 		sk := map[int]bool(nil)
@@ -1118,6 +1225,19 @@ func deathClass(stderr string, exitErr string) (kind, top string) {
 	return kind, ms[0][1]
 }
 
+var logStart = time.Now()
+
+func logf(format string, a ...interface{}) {
+	lf := os.Getenv("VERIF_CODEC_LOG")
+	if lf == "" {
+		return
+	}
+	if f, err := os.OpenFile(lf, os.O_WRONLY|os.O_APPEND|os.O_CREATE, 0o644); err == nil {
+		fmt.Fprintf(f, "%7.1fs "+format+"\n", append([]interface{}{time.Since(logStart).Seconds()}, a...)...)
+		f.Close()
+	}
+}
+
 type headWriter struct {
 	b   bytes.Buffer
 	max int
@@ -1161,9 +1281,10 @@ func superviseShard(prop string, s evid.ShardInfo, w *evid.Run, p *plan, assign 
 	ub, _ := json.Marshal(myUnits)
 	os.WriteFile(unitsPath, ub, 0o644)
 	outcomes := map[string]int64{}
+	judged := map[int]bool{} // cases of the current unit already accounted for (violation reported or executor killed)
 	start := 0
 	skip := []string{}
-	deaths := 0
+	deaths, unitDeaths := 0, 0
 	var samples int
 	for start < len(mine) {
 		binary.LittleEndian.PutUint32(pub[0:], 0xffffffff)
@@ -1179,7 +1300,22 @@ func superviseShard(prop string, s evid.ShardInfo, w *evid.Run, p *plan, assign 
 		rd := bufio.NewReaderSize(stdout, 1<<20)
 		for {
 			line, err := rd.ReadBytes('\n')
-			if len(line) > 1 {
+			if len(line) > 1 && bytes.HasPrefix(line, []byte(`{"v":true`)) {
+				var vm violationMsg
+				if jerr := json.Unmarshal(line, &vm); jerr != nil {
+					evid.EngineError(prop, "executor output: %v: %s", jerr, clip(string(line)))
+				}
+				if vm.Unit != start {
+					evid.EngineError(prop, "executor reported a violation in unit %d, expected %d", vm.Unit, start)
+				}
+				w.Violate(vm.Sig, vm.Detail, vm.Replay)
+				if !judged[vm.M] {
+					judged[vm.M] = true
+					w.Eval("")
+					outcomes["violation"]++
+					skip = append(skip, strconv.Itoa(vm.M))
+				}
+			} else if len(line) > 1 {
 				var ur unitResult
 				if jerr := json.Unmarshal(line, &ur); jerr != nil {
 					evid.EngineError(prop, "executor output: %v: %s", jerr, clip(string(line)))
@@ -1188,8 +1324,11 @@ func superviseShard(prop string, s evid.ShardInfo, w *evid.Run, p *plan, assign 
 					evid.EngineError(prop, "executor reported unit %d, expected %d", ur.Unit, start)
 				}
 				mergeUnit(w, &ur, &samples, outcomes)
+				logf("shard %d unit %d/%d done (%s %s seed %d): evals %d skipped %d", s.Index, start, len(mine), myUnits[start].Kind, p.targets[myUnits[start].Target].Name, myUnits[start].Seed, ur.Evals, ur.Skipped)
+				unitDeaths = 0
 				start++
 				skip = skip[:0]
+				judged = map[int]bool{}
 			}
 			if err != nil {
 				break
@@ -1216,13 +1355,25 @@ func superviseShard(prop string, s evid.ShardInfo, w *evid.Run, p *plan, assign 
 			evid.EngineError(prop, "executor died outside a case (%v), published unit %d, expected %d: %s", werr, ui, start, tail(stderr, 600))
 		}
 		deaths++
+		unitDeaths++
 		kind, top := deathClass(stderr, werr.Error())
-		if lf := os.Getenv("VERIF_CODEC_LOG"); lf != "" {
-			if f, err := os.OpenFile(lf, os.O_WRONLY|os.O_APPEND|os.O_CREATE, 0o644); err == nil {
-				fmt.Fprintf(f, "shard %d death #%d unit %d case %d key %q kind %s top %s err %v\n%s\n", s.Index, deaths, ui, m, key, kind, top, werr, firstLines(stderr, 12))
-				f.Close()
-			}
+		if m == probeMarker {
+			// the probe for length fields killed the executor: run this unit without probing
+			skip = append(skip, strconv.Itoa(probeMarker))
+			outcomes["site-probe-died"]++
+			logf("shard %d unit %d: site probe died (%s %s)", s.Index, ui, kind, top)
+			continue
 		}
+		if unitDeaths > maxDeathsPerUnit {
+			u := myUnits[ui]
+			w.Capped(fmt.Sprintf("%s unit of %s (seed %d) abandoned after %d process deaths", u.Kind, p.targets[u.Target].Name, u.Seed, maxDeathsPerUnit))
+			start++
+			skip = skip[:0]
+			judged = map[int]bool{}
+			unitDeaths = 0
+			continue
+		}
+		logf("shard %d death #%d unit %d case %d key %q kind %s top %s err %v\n%s", s.Index, deaths, ui, m, key, kind, top, werr, firstLines(stderr, 4))
 		u := myUnits[ui]
 		t := p.targets[u.Target]
 		in, desc := reconstructCase(p, u, m)
@@ -1236,6 +1387,7 @@ func superviseShard(prop string, s evid.ShardInfo, w *evid.Run, p *plan, assign 
 			outcomes["decoder-died(C02)"]++
 		}
 		w.Eval("")
+		judged[m] = true
 		if key != "" {
 			mf, _ := os.OpenFile(memoPath, os.O_WRONLY|os.O_APPEND, 0o644)
 			mf.WriteString(key + "\n")
@@ -1280,12 +1432,6 @@ func mergeUnit(w *evid.Run, ur *unitResult, samples *int, outcomes map[string]in
 		outcomes["skipped:repeat-of-recorded-allocation-failure"] += ur.Skipped
 	}
 	w.NotJudged(ur.NotJudged)
-	for _, v := range ur.Viol {
-		n := ur.ViolCount[v.Sig]
-		for i := 0; i < n; i++ {
-			w.Violate(v.Sig, v.Detail, v.Replay)
-		}
-	}
 	for _, s := range ur.Samples {
 		if *samples < 8 {
 			w.Sample(s)
@@ -1351,6 +1497,16 @@ func runC02(prop string) {
 	}
 	p := makePlan(ts, thorough)
 	p.buildUnits()
+	if only := os.Getenv("VERIF_CODEC_ONLY"); only != "" { // debugging aid: restrict to some entry points
+		var keep []unit
+		for _, u := range p.units {
+			if strings.Contains(","+only+",", ","+p.targets[u.Target].Name+",") {
+				keep = append(keep, u)
+			}
+		}
+		p.units = keep
+		r.Capped("VERIF_CODEC_ONLY=" + only)
+	}
 	n := evid.Workers()
 	assign := p.shardOf(n)
 	if os.Getenv("VERIF_SHARD") == "" {
@@ -1367,7 +1523,7 @@ func runC02(prop string) {
 		if thorough {
 			scope = "every type: all values with at most one deviation"
 		}
-		what := "decode returns a value or an error; no panic; the process survives; bytes allocated <= 1024*len(input)+16 MiB (runtime/metrics /gc/heap/allocs:bytes delta); no case runs longer than the 30 s watchdog"
+		what := "decode returns a value or an error; no panic; the process survives; bytes allocated <= 1024*len(input)+16 MiB (runtime/metrics /gc/heap/allocs:bytes delta); no case uses more than 30 s of CPU time (watchdog; normal cost is microseconds)"
 		if prop == "C03" {
 			what = "for every input that decodes without error: Encode of the decoded value neither panics nor fails; decoding the re-encoding (alone, and followed by other data as inside a container) yields an equal value and consumes exactly the re-encoding"
 		}
@@ -1413,10 +1569,7 @@ func replayC02(prop string, rc caseReplay) {
 		fmt.Printf("replay %s target=%s input(%d bytes)=%x\n", rc.Desc, t.Name, len(in), clipBytes(in))
 		e.runCase(t, in, func() string { return rc.Desc })
 		fmt.Printf("  outcomes=%v\n", e.res.Outcomes)
-		for _, v := range e.res.Viol {
-			fmt.Printf("  sig=%q\n  detail=%s\n", v.Sig, v.Detail)
-		}
-		if len(e.res.Viol) > 0 {
+		if len(e.sigSeen) > 0 {
 			exit(1)
 		}
 		exit(0)
